@@ -76,7 +76,7 @@ CLAIMED["C01"] = dict(
     technique=_CT + "; clauses: canonical encodings are accepted, fully consumed, and re-encode to identical bytes; hand-written primitive codecs (packed guid, cstring, bool) under their own contracts",
     text="Proof for the loop-free messages: for every byte string that the wowm definition makes a canonical encoding (all branches, all enumerators, numeric extremes), decoding succeeds, consumes the body, "
          "and re-encoding yields the same bytes with size()==bytes written. Complete per message (symbolic bytes up to max size + 2), not sampled.",
-    note=_CTNOTE + " Known findings (open): Level16/Level32 values above 255 are truncated to the u8 Level type; CMSG_GUILD_BANK_SWAP_ITEMS (tbc, wrath) cannot decode its exact canonical encodings (endless array after a complex enum).",
+    note=_CTNOTE + " Known finding (open): Level16/Level32 values above 255 are truncated to the u8 Level type. Fixed: CMSG_GUILD_BANK_SWAP_ITEMS (tbc, wrath) could not decode its exact canonical encodings (endless array after a complex enum).",
     design="§4 C01, §13")
 CLAIMED["C03"] = dict(
     technique=_CT + "; obligations = Kani's built-in checks (panic, overflow, out-of-bounds, unwinding) on the decode path for every byte string; primitive readers total for all inputs",
